@@ -207,6 +207,20 @@ class IrToPythonCompiler:
             self.emit("v = x % y")
             self.emit("return -v if sign else v")
 
+        # IEEE 754 float divide, python raises upon divide by zero:
+        self.emit("@staticmethod")
+        with self.func_def("fdiv(x, y):"):
+            self.emit("try:")
+            with self.indented():
+                self.emit("return x / y")
+            self.emit("except ZeroDivisionError:")
+            with self.indented():
+                self.emit("if x == 0 or x != x:")
+                with self.indented():
+                    self.emit("return math.nan")
+                self.emit("sign = math.copysign(1, x) * math.copysign(1, y)")
+                self.emit("return math.copysign(math.inf, sign)")
+
         # More c like shift left:
         self.emit("@staticmethod")
         with self.func_def("ishl(x, amount, bits):"):
@@ -508,6 +522,8 @@ class IrToPythonCompiler:
         elif op in shift_ops and ins.ty.is_integer:
             fname = shift_ops[op]
             self.emit(f"{ins.name} = {fname}({a}, {b}, {ins.ty.bits})")
+        elif op == "/":
+            self.emit(f"{ins.name} = rt.fdiv({a}, {b})")
         else:
             self.emit(f"{ins.name} = {a} {op} {b}")
 
